@@ -14,6 +14,7 @@ def instances(tier):
             L.append(I("min%d_%s" % (mn, "a" if append else "t"), trig="startup", append=append, count=2, limit=mn,
                        sizes=(1, 2), pre="PreB", maxrec=3 if tier == "quick" else 4, restart=2))
     L += [
+        I("min_huge", trig="startup", count=2, limit=2000000000, sizes=(1, 2), pre="PreB", maxrec=3, restart=2),
         I("min2_w11", trig="startup", base=1, count=1, limit=2, sizes=(1, 3), pre="PreB", maxrec=4, restart=2),
         I("min1_delete", trig="startup", roller="delete", count=0, limit=1, sizes=(1, 2), pre="PreB", maxrec=3, restart=2),
         I("big", trig="startup", count=2, limit=2, sizes=(1, 2, 3), pre="PreB", maxrec=5, restart=2, faults=1, crash=1,
